@@ -215,13 +215,13 @@ func execute(s *scen, ch coop.Chooser) (res *coop.Result, clause, msg string) {
 		if okSetup {
 			okSetup = openIt()
 		}
-		clk.AddMs(uint64(s.Retry)) // the retry timeout has elapsed
+		clk.AddMs(uint64(s.Retry) + 1) // the retry timeout has elapsed (one tick more: at the deadline itself either answer is allowed)
 	case "timeout":
 		okSetup = openIt()
 		clk.AddMs(uint64(s.Retry) - uint64(s.Retry)/2) // half a timeout before the deadline
 	case "probe-ok", "probe-fail", "reopen":
 		okSetup = openIt()
-		clk.AddMs(uint64(s.Retry))
+		clk.AddMs(uint64(s.Retry) + 1)
 		if okSetup {
 			p, ok := enter() // the probe
 			okSetup = ok
@@ -247,7 +247,7 @@ func execute(s *scen, ch coop.Chooser) (res *coop.Result, clause, msg string) {
 		openedAt = clk.Ms() - (uint64(s.Retry) - uint64(s.Retry)/2)
 	}
 	if s.Family == "probe-blocked" {
-		openedAt = clk.Ms() - uint64(s.Retry)
+		openedAt = clk.Ms() - uint64(s.Retry) - 1
 	}
 	vatomic.After = func(op string, addr unsafe.Pointer, v int64, ok bool) {
 		w := coop.Me()
@@ -476,7 +476,7 @@ func execute(s *scen, ch coop.Chooser) (res *coop.Result, clause, msg string) {
 				return res, "second-admission-while-half-open", fmt.Sprintf("worker %d read state HalfOpen (no probe number configured) and was admitted while the probe is outstanding", e.w)
 			case !r.admitted && r.lastLoad == Closed:
 				return res, "rejected-while-closed", fmt.Sprintf("worker %d read state Closed but was rejected", e.w)
-			case !r.admitted && r.lastLoad == Open && !r.overlapped && r.openEndKnownAtCall && r.callT >= r.openEndAtCall+retry:
+			case !r.admitted && r.lastLoad == Open && !r.overlapped && r.openEndKnownAtCall && r.callT > r.openEndAtCall+retry: // (strictly later: at the deadline itself either answer is within the resolution of the millisecond clock)
 				return res, "probe-not-admitted-after-retry-timeout", fmt.Sprintf("worker %d began at t=%d, alone, found the breaker Open and was rejected although the call that opened it had returned at t=%d and the retry timeout is %d ms", e.w, r.callT, r.openEndAtCall, retry)
 			case !r.admitted && r.didHalfOpenCAS:
 				return res, "transitioning-request-rejected", fmt.Sprintf("worker %d performed Open->HalfOpen but was rejected", e.w)
@@ -533,6 +533,12 @@ func check(i int, s *scen, ch coop.Chooser) {
 	res, clause, msg := execute(s, ch)
 	if msg == "stuck" {
 		run.Abort("scheduler: a worker did not reach a yield point (wall-clock guard); the process is abandoned")
+		return
+	}
+	if clause == "setup" {
+		// the pre-state is reached by ordinary sequential use, which C03 judges; here a failed setup only means that
+		// there is nothing to race about (too many of them leave the check below its minimum of distinct schedules)
+		run.Count("scenarios_skipped_setup_failed", 1)
 		return
 	}
 	if clause != "" {
